@@ -70,4 +70,7 @@ def specStep (st : OState) (line : String) : OState × String :=
     | _, _, _, _, _ => (st', "violates unparsable-output")
   | _ => (st, "bad-line")
 
+def initModel : Tracker := Tracker.init 0
+def initSpec : OState := {}
+
 end Driver.C06
